@@ -147,14 +147,14 @@ P("C02", ["LC.Props.C02", "LC.Props.C02Words", "LC.Props.C02Bounds", "LC.Props.C
   "real Match on exact / edited (word deletions, substitutions, insertions at 2-30%) / truncated / multi-license inputs, "
   "scenario files and malformed text over the full embedded corpus; oracle: independent two-row DP Levenshtein over the "
   "white-box token ids, Confidence <= 1 - L/|K|, lines = lines of first/last word. distinct = distinct input bytes; "
-  "non-trivial = at least one match reported",
+  "non-trivial = at least one match reported; plus a 69 416-word dictionary probe (ids below, inside and past the UTF-16 surrogate block; substitutions by the word with id +-2^16, +-2^15) and the exhaustive token-rune round trip",
   "lev_le_levWord / score_bound prove, for EVERY valid edit script, that the distance the code uses for the confidence is an "
   "upper bound of the true word-level Levenshtein distance between the reported span and the known text; the code's "
   "computation of that distance, of the span offsets and of the confidence is tied to the model by the `match` "
   "correspondence (bit-identical Results) on every run.",
   ["DiffSpec.valid: the script returned by go-diff reproduces both texts with non-empty segments (hypothesis `Valid`; every "
    "recorded script is replayed through the model, an invalid one shows as a correspondence mismatch)",
-   "float64: 1 - d/k is antitone in d", "dictionary size < 0xD800 (token ids are cast to runes inside go-diff)"], regen=ALLGEN)
+   "float64: 1 - d/k is antitone in d", "dictionary size <= 0x10FFFF - 0x800 (token ids travel through go-diff as runes; since the repair be50ff0 they skip the surrogate block: LC/Model/TokenRune.lean, tied to v2/diff.go by exhaustive comparison over all 0x110000 identifiers — enumeration of a finite domain, not a translation; `throughString` models what Go does to one rune on string conversion; probe vbigDict runs a 69 416-word dictionary on the real Match)"], regen=ALLGEN)
 
 P("C03", ["LC.Props.C03Lines", "LC.Props.C03WF"], [TOK, MATCH],
   "tokenizer: corpus documents, scenario files, malformed stream (invalid UTF-8, entity soup, hyphen/newline storms), "
